@@ -159,9 +159,9 @@ pub fn plan(prop: &str) -> Vec<Item> {
             v.push(it("pipe_in_items", "pool=1,n=2,pat=1,conc=2", Some(1), 2));
             v.extend(prog_sweep(&["D", "Dn", "Dx", "Sn", "FDd", "AF"], &[1], Some(1), 2, Some(1), 1));
             v.extend(prog_sweep(&["D", "Dn", "Dx", "Sn", "FDd", "AF"], &[2], None, 1, None, 1));
-            v.extend(prog_pairs(&["D", "Dn", "Dx", "Sn", "FDd", "AF", "FDx"], "pool=1,busy=1", false, Some(1), 2, 2));
+            v.extend(prog_pairs(&["D", "Dn", "Dx", "Sn", "FDd", "AF", "FDx", "FDk"], "pool=1,busy=1", false, Some(1), 2, 2));
             v.extend(prog_pairs(&["D", "Dn", "Sn"], "pool=1,busy=1,late=1", true, Some(1), 2, 1));
-            v.extend(prog_pairs(&["D", "Dn", "Dx", "Sn", "FDd", "AF", "FDx"], "pool=2,busy=2", false, None, 1, 1));
+            v.extend(prog_pairs(&["D", "Dn", "Dx", "Sn", "FDd", "AF", "FDx", "FDk"], "pool=2,busy=2", false, None, 1, 1));
         }
         "C04" => {
             for st in [0, 1, 2, 3, 4, 5, 8] {
@@ -199,6 +199,11 @@ pub fn plan(prop: &str) -> Vec<Item> {
             }
             v.push(it("pipe_in_items", "pool=1,n=1,pat=1,conc=2,fin=1", Some(2), 3));
             v.push(it("pipe_drop_output", "pool=1,mode=0", Some(2), 3));
+            for pool in [0, 1, 2] {
+                for dropper in [0, 2] {
+                    v.push(it("drop_obj", &format!("pool={},state=4,dropper={}", pool, dropper), Some(if pool == 2 { 1 } else { 2 }), if pool == 2 { 2 } else { 3 }));
+                }
+            }
         }
         "C06" => {
             for kind in [0, 1] {
@@ -230,8 +235,8 @@ pub fn plan(prop: &str) -> Vec<Item> {
             }
             v.push(it("excl_susp", "pool=1,kind=0", Some(2), 3));
             // generated programs with gated operations, every waker ever handed out fired once more (stale wake-ups)
-            v.extend(prog_pairs(&["FDa", "FDd", "FSa", "AF", "FDx", "FSx"], "pool=1,stale=1", false, Some(1), 2, 1));
-            v.extend(prog_pairs(&["FDa", "FDd", "FSa", "AF", "FDx", "FSx"], "pool=2,stale=1", false, None, 1, 1));
+            v.extend(prog_pairs(&["FDa", "FDd", "FSa", "AF", "FDx", "FSx", "FDk"], "pool=1,stale=1", false, Some(1), 2, 1));
+            v.extend(prog_pairs(&["FDa", "FDd", "FSa", "AF", "FDx", "FSx", "FDk"], "pool=2,stale=1", false, None, 1, 1));
             v.extend(prog_pairs(&["FDd", "AF", "FDx"], "pool=1,busy=1,stale=1", false, None, 1, 1));
         }
         "C07" => {
@@ -262,8 +267,8 @@ pub fn plan(prop: &str) -> Vec<Item> {
                 }
             }
             v.push(it("fs_nested", "pool=1,shape=1", Some(2), 3));
-            v.extend(prog_sweep(&["FDa", "FDd", "FDs", "AF", "FDx"], &[1], Some(1), 2, Some(1), 1));
-            v.extend(prog_pairs(&["FDa", "FDd", "FDs", "AF", "FDx"], "pool=1,busy=1", false, Some(1), 2, 2));
+            v.extend(prog_sweep(&["FDa", "FDd", "FDs", "AF", "FDx", "FDk"], &[1], Some(1), 2, Some(1), 1));
+            v.extend(prog_pairs(&["FDa", "FDd", "FDs", "AF", "FDx", "FDk"], "pool=1,busy=1", false, Some(1), 2, 2));
         }
         "C08" => {
             for mode in 0..4 {
@@ -316,6 +321,9 @@ pub fn plan(prop: &str) -> Vec<Item> {
                 v.push(it("indep_stale", &format!("pool=2,how={}", how), Some(1), 2));
             }
             v.push(it("indep_stale", "pool=3,how=0", None, 1));
+            v.push(it("indep_race", "pool=2,n=2", Some(2), 3));
+            v.push(it("indep_race", "pool=3,n=2", Some(1), 2));
+            v.push(it("indep_race", "pool=3,n=3", Some(0), 1));
         }
         "C11" => {
             for n in [0, 1, 2] {
@@ -335,6 +343,9 @@ pub fn plan(prop: &str) -> Vec<Item> {
             v.push(it("pipe_in_items", "pool=1,n=20,pat=2,conc=1", Some(0), 1));
             v.push(it("pipe_in_items", "pool=0,n=20,pat=0,conc=1", Some(0), 1));
             v.push(it("pipe_in_items", "pool=2,n=2,pat=1,conc=1", Some(1), 2));
+            v.push(it("pipe_in_items", "pool=1,n=2,pat=1,conc=0,pin=1", Some(2), 3));
+            v.push(it("pipe_in_items", "pool=1,n=1,pat=1,conc=2,pin=1", Some(2), 3));
+            v.push(it("pipe_in_items", "pool=2,n=2,pat=2,conc=0,pin=1", Some(1), 2));
             v.push(it("pipe_in_items", "pool=0,n=2,pat=1,conc=1", Some(2), 3));
             for n in [0, 1, 2] {
                 v.push(it("pipe_in_items", &format!("pool=1,n={},pat=1,conc=2,fin=1", n), Some(2), 3));
@@ -367,6 +378,11 @@ pub fn plan(prop: &str) -> Vec<Item> {
                 v.push(it("suspend", &format!("pool={},resume=0,sync=0,stale=1", pool), Some(if pool == 1 { 2 } else { 1 }), if pool == 1 { 3 } else { 2 }));
             }
             v.push(it("suspend", "pool=1,resume=1,sync=1,stale=1", Some(1), 2));
+            for resume in [0, 1] {
+                v.push(it("suspend", &format!("pool=1,resume={},sync=0,stale=2", resume), Some(2), 3));
+            }
+            v.push(it("suspend", "pool=1,resume=0,sync=1,stale=2", Some(1), 2));
+            v.push(it("suspend", "pool=2,resume=0,sync=0,stale=2", Some(1), 2));
             for pool in [0, 1, 2] {
                 for resume in [0, 1] {
                     for sync in [0, 1] {
@@ -395,7 +411,7 @@ pub fn plan(prop: &str) -> Vec<Item> {
         }
         "C15x" => {}
         "C16" => {
-            for mode in 0..3 {
+            for mode in 0..4 {
                 for pool in [1, 2] {
                     v.push(it("pipe_drop_output", &format!("pool={},mode={}", pool, mode), Some(if pool == 1 { 2 } else { 1 }), if pool == 1 { 3 } else { 2 }));
                 }
@@ -406,6 +422,9 @@ pub fn plan(prop: &str) -> Vec<Item> {
                 v.push(it("pool_census", &format!("pool={},n=2,phases=0", pool), Some(if pool >= 2 { 1 } else { 2 }), if pool >= 2 { 2 } else { 3 }));
                 v.push(it("pool_census", &format!("pool={},n=2,phases=2", pool), Some(1), if pool >= 2 { 1 } else { 2 }));
             }
+            for pool in [1, 2] {
+                v.push(it("pool_census", &format!("pool={},n=2,phases=3", pool), Some(if pool == 1 { 2 } else { 1 }), if pool == 1 { 3 } else { 2 }));
+            }
             v.push(it("pool_census", "pool=1,n=3,phases=0", Some(1), 2));
             v.push(it("pool_census", "pool=2,n=3,phases=0", Some(0), 1));
             v.push(it("pool_census", "pool=0,n=3,phases=0", Some(2), 3));
@@ -413,18 +432,18 @@ pub fn plan(prop: &str) -> Vec<Item> {
         }
         "C14" => {
             // explored in the AddressSanitizer build (see check.rs): canaries + ASan on every interleaving
-            v.push(it("sync_states", "pool=1,st=8,n=2,raw=0", Some(1), 2));
+            v.push(it("sync_states", "pool=1,st=8,n=2,raw=0", Some(2), 3));
             v.push(it("sync_states", "pool=0,st=0,n=2,raw=0", Some(2), 3));
             v.push(it("sync_states", "pool=1,st=5,n=1,raw=0", Some(2), 3));
             for state in [1, 3] {
                 for dropper in 0..3 {
-                    v.push(it("drop_obj", &format!("pool=1,state={},dropper={}", state, dropper), Some(1), 2));
+                    v.push(it("drop_obj", &format!("pool=1,state={},dropper={}", state, dropper), Some(2), 3));
                 }
             }
             v.push(it("fd_result", "pool=1,mode=3,raw=0", Some(2), 2));
             v.push(it("fd_result", "pool=1,mode=1,raw=0", Some(1), 2));
             for mode in 0..4 {
-                v.push(it("fs_cancel", &format!("pool=1,mode={},raw=0", mode), Some(1), 2));
+                v.push(it("fs_cancel", &format!("pool=1,mode={},raw=0", mode), Some(2), 2));
             }
             v.push(it("try_paths", "pool=1,path=0,raw=0", Some(1), 2));
             v.push(it("pipe_in_items", "pool=1,n=1,pat=1,conc=2,fin=1", Some(1), 2));
@@ -432,7 +451,9 @@ pub fn plan(prop: &str) -> Vec<Item> {
             v.push(it("pipe_drop_output", "pool=1,mode=0", Some(1), 2));
             v.push(it("pipe_drop_output", "pool=1,mode=2", Some(1), 2));
             v.push(it("panic_contain", "pool=1,ctx=1", Some(1), 2));
-            v.extend(prog_sweep(&[], &[1], Some(0), 1, None, 1));
+            v.extend(prog_sweep(&[], &[1], Some(1), 2, None, 2));
+            v.extend(prog_pairs(&[], "pool=1,busy=1,raw=0", false, None, 1, 1));
+            v.extend(prog_sweep(&[], &[0, 2], None, 1, None, 1));
         }
         _ => {}
     }
@@ -457,7 +478,7 @@ pub fn owners(scenario: &str, part: &str) -> Vec<&'static str> {
         "fd_result" | "fd_two" => vec!["C07", "C04"],
         "fs_cancel" | "fs_nested" => vec!["C08"],
         "try_paths" | "f1_try_sync_idle_nonempty" => vec!["C09", "C03"],
-        "indep" | "indep_stale" => vec!["C10"],
+        "indep" | "indep_stale" | "indep_race" => vec!["C10"],
         "drop_obj" => vec!["C05"],
         "suspend" => vec!["C13"],
         "panic_contain" => vec!["C15"],
